@@ -46,6 +46,7 @@ UNKNOWN_BODIES = (
     (["[Song]", "{", "0 = TS 9", "garbage"], ""),
     ([], "  "),
     (["a = b", "} ", "[EasyKeyboard]", "{ ", "0 = N 3 0", "}\t", " }", "c = d"], ""),
+    (["foo", "", "baz", "   ", "", "\t", "0 = N 1 0", ""], ""),
     (["a = b", "}\ufeff", "\ufeff}", "[Song]\ufeff", "\u200b}", "{\ufeff", "0 = N 3 0", "c = d"], ""),
 )
 VIAS = ("file", "path", "path-bom")
